@@ -324,6 +324,24 @@ func c01(x *mon.Ctx) {
 		w2.Q.Body[140] ^= 0x10 // TD body edited, quote signature not redone
 		crashingCollaborators(x, "edited-body-and-a-crashing-getter", w2.Case(world.LColl, "td-body-edited", "crashing-getter"))
 	}
+	// ---- a getter that re-enters the library: while serving this verification it verifies another, acceptable quote through the
+	//      same options value. The forged quote stays refused (its own chain, its own QE report signature are what is judged).
+	{
+		r := x.Rand("reentrant-getter")
+		a := richHonest(r)
+		b := world.Honest(r, world.HonestOpts{Platform: a.P})
+		honest := a.Case(world.LColl, "honest", "reentrant-getter")
+		w := a.Clone()
+		w.Q.SignQE(world.NewKey())
+		reentrantCollaborators(x, "reentrant-getter", honest, w.Case(world.LColl, "qe-report-signed-by-another-key", "reentrant-getter"))
+		w = a.Clone()
+		w.Q.Chain = b.Q.Chain // the acceptable quote's QE report and signatures under an untrusted look-alike chain
+		reentrantCollaborators(x, "reentrant-getter", honest, w.Case(world.LColl, "chain-of-an-untrusted-lookalike-pki", "reentrant-getter"))
+		w = b.Clone()
+		w.Roots = a.Roots
+		reentrantCollaborators(x, "reentrant-getter", honest, w.Case(world.LColl, "quote-entirely-from-an-untrusted-pki", "reentrant-getter"))
+		x.Require("reentrant-getter", 0, 8, 12)
+	}
 	// ---- (b) structured forgeries
 	enableShadowForTwins(x)
 	nw := x.Pick(6, 40)
